@@ -10,6 +10,7 @@ import (
 	"sort"
 	"strconv"
 	"strings"
+	"sync"
 
 	"github.com/johannesboyne/gofakes3"
 	"github.com/johannesboyne/gofakes3/backend/s3mem"
@@ -308,6 +309,8 @@ func runC16(tier string, seed uint64) {
 			nontrivial(t.name + "|" + l.method + "|" + l.query + "|" + l.bucket + "|" + l.key)
 		}
 	}
+	c16Concurrent("bases", []gofakes3.Option{gofakes3.WithHostBucketBase("s3.example.com", "other.test")})
+	c16Concurrent("host", []gofakes3.Option{gofakes3.WithHostBucket(true)})
 	sample("each logical request (create/put/get/range/head/delete/list V1+V2/versions/location/versioning/multi-delete/copy/multipart initiate+part+list+complete (its Location followed)+abort/unknown methods over 2 buckets x 16 keys incl. spaces, UTF-8, dots, nesting, empty / '.' / '..' segments) is sent to 21 twin servers: path-style; host-bucket; host-bucket-base with one base, two bases (first and second base, configured with stray dots and a port), fallbacks (localhost, the base itself, multi-label prefix, unrelated host, a host that only ends in the text of a base), two bases one of which is a suffix of the other (both orders, both hosts), host-bucket and host-bucket-base configured together (base host and every fallback); path-style with an extra leading and a trailing slash")
 }
 
@@ -339,4 +342,62 @@ func pathUnescape(p string) string {
 		sb.WriteByte(p[i])
 	}
 	return sb.String()
+}
+
+// c16Concurrent: the bucket a request addresses is decided by that request's Host alone, also while
+// other requests with other hosts (other buckets, the second base, hosts that fall back to
+// path-style) are being routed by the same server
+func c16Concurrent(mode string, opts []gofakes3.Option) {
+	st := newStore("mem")
+	defer st.Close()
+	h := newServer(st.Backend, opts...)
+	buckets := []string{"alpha", "beta", "gamma-3", "delta"}
+	for _, b := range buckets {
+		do(h, Req{Method: "PUT", Path: "/", Host: b + ".s3.example.com"})
+		do(h, Req{Method: "PUT", Path: "/who", Host: b + ".s3.example.com", Body: []byte("I am in " + b)})
+	}
+	var mu sync.Mutex
+	var bad []string
+	var wg sync.WaitGroup
+	start := make(chan struct{})
+	for c := 0; c < 16; c++ {
+		wg.Add(1)
+		go func(c int) {
+			defer wg.Done()
+			<-start
+			for i := 0; i < 1500; i++ {
+				b := buckets[(c+i)%len(buckets)]
+				host := b + ".s3.example.com"
+				switch {
+				case mode == "bases" && (c+i)%5 == 1:
+					host = b + ".other.test"
+				case mode == "bases" && (c+i)%7 == 2:
+					// a host that falls back to path-style (multi-label): it addresses the bucket of its path
+					r := do(h, Req{Method: "GET", Path: "/" + b + "/who", Host: "x.y.s3.example.com"})
+					if r.Status != 200 || string(r.Body) != "I am in "+b {
+						mu.Lock()
+						bad = append(bad, fmt.Sprintf("path-style fallback for %s/who answers %d %q", b, r.Status, truncate(r.Body, 30)))
+						mu.Unlock()
+					}
+					continue
+				}
+				r := do(h, Req{Method: "GET", Path: "/who", Host: host})
+				if r.Status != 200 || string(r.Body) != "I am in "+b {
+					mu.Lock()
+					if len(bad) < 6 {
+						bad = append(bad, fmt.Sprintf("GET %s/who answers %d %q %s", host, r.Status, truncate(r.Body, 30), errCode(r.Body)))
+					}
+					mu.Unlock()
+				}
+			}
+		}(c)
+	}
+	close(start)
+	wg.Wait()
+	if len(bad) > 0 {
+		emit("c16", "BAD", hs(fmt.Sprintf("%s: 16 clients addressing 4 buckets by host at the same time: %s", mode, strings.Join(bad, "; "))))
+	} else {
+		emit("c16", "GOOD", hs(fmt.Sprintf("%s: 16 clients x 1500 host-style requests to 4 buckets at the same time: each is answered from the bucket its own Host names", mode)))
+	}
+	nontrivial("concurrent-hosts|" + mode)
 }
